@@ -40,6 +40,9 @@ type C08Case struct {
 	Templates []corev1.PodTemplateSpec `json:"templates"`
 	Ops       []C08Op                  `json:"ops"`
 	Limit     int32                    `json:"limit"`
+	// Sel: the set's selector. 0 matchLabels {app}, 1 matchLabels plus "tmpl Exists", 2 expressions only, 3 matchLabels
+	// plus "tmpl In (0..3)" (every template carries both labels, so every variant is a valid set)
+	Sel int `json:"sel,omitempty"`
 }
 
 func (c C08Case) Summary() interface{} {
@@ -57,7 +60,7 @@ func (c C08Case) Summary() interface{} {
 	if len(t0) > 1200 {
 		t0 = append(t0[:1200], []byte("…")...)
 	}
-	return map[string]interface{}{"ops": ops, "template_populated_fields": sizes, "template0_json_prefix": string(t0), "limit": c.Limit}
+	return map[string]interface{}{"ops": ops, "template_populated_fields": sizes, "template0_json_prefix": string(t0), "limit": c.Limit, "sel": c.Sel}
 }
 
 // pod templates over the whole PodTemplateSpec schema; integers stay within int32 (what pod
@@ -106,6 +109,7 @@ func genC08(rt *rapid.T) C08Case {
 		o.B = rapid.IntRange(0, 1).Draw(rt, "b")
 		c.Ops = append(c.Ops, o)
 	}
+	c.Sel = rapid.SampledFrom([]int{0, 0, 1, 2, 3}).Draw(rt, "sel")
 	return c
 }
 
@@ -133,6 +137,17 @@ func runC08(rep Rep, c C08Case) {
 	set.Spec.Template = *c.Templates[0].DeepCopy()
 	lim := c.Limit
 	set.Spec.RevisionHistoryLimit = &lim
+	switch c.Sel {
+	case 1:
+		set.Spec.Selector.MatchExpressions = []metav1.LabelSelectorRequirement{{Key: "tmpl", Operator: metav1.LabelSelectorOpExists}}
+	case 2:
+		set.Spec.Selector = &metav1.LabelSelector{MatchExpressions: []metav1.LabelSelectorRequirement{{Key: "app", Operator: metav1.LabelSelectorOpIn, Values: []string{"web"}}}}
+	case 3:
+		set.Spec.Selector.MatchExpressions = []metav1.LabelSelectorRequirement{{Key: "tmpl", Operator: metav1.LabelSelectorOpIn, Values: []string{"0", "1", "2", "3"}}}
+	}
+	if c.Sel != 0 {
+		rep.Label("selector-with-expressions")
+	}
 	cl.Put(set)
 	key := NS + "/web"
 	cur := 0
@@ -230,7 +245,7 @@ func runC08(rep Rep, c C08Case) {
 			p.UID, p.ResourceVersion = "", ""
 			p.CreationTimestamp = metav1.Time{}
 			p.Name = fmt.Sprintf("web-%s%d", []string{"zzz", "000"}[o.B], i)
-			p.Labels = map[string]string{"app": "web"}
+			p.Labels = map[string]string{"app": "web", "tmpl": "0"}
 			p.OwnerReferences = []metav1.OwnerReference{ownerRefTo(cs)}
 			p.Data.Raw = bytes.Replace(append([]byte(nil), p.Data.Raw...), []byte(`"metadata":{`), []byte(fmt.Sprintf(`"metadata":{"annotations":{"numbered":"%d"},`, i)), 1)
 			p.Revision = []int64{max, max, max + 1, max - 1, 0}[o.A%5]
@@ -420,7 +435,7 @@ func runC08(rep Rep, c C08Case) {
 			templateEditSince = false
 		}
 	}
-	rep.FP(worldFPAny(c.Ops), len(c.Templates), c.Limit, worldFPAny(c.Templates))
+	rep.FP(worldFPAny(c.Ops), len(c.Templates), c.Limit, c.Sel, worldFPAny(c.Templates))
 	if sawRollback {
 		rep.Label("rollback")
 	}
